@@ -26,6 +26,7 @@ def declare(rep):
     rep.rule("C09.daughter-validated", "each daughter is returned only after initialize_cell_properties(true)", floor=2)
     rep.rule("C09.half-target-volume", "each daughter's target_volume_ is the mother's target_volume_ / 2", floor=2)
     rep.rule("C09.stale-threshold", "in the divider no size of the mother's node/face list is kept across a call that may compact the list (rebase): the 'ids >= threshold are interface points' convention relies on it", floor=1)
+    rep.rule("C09.rotation-shortcut", "the interface points are flattened with the identity instead of the quaternion rotation only when the division normal is exactly the z axis: under any tolerance the contour shared with the lateral faces is projected onto a plane that is not the division plane", floor=1)
     rep.rule("C09.same-type", "every concrete cell class overrides get_cell_same_type and constructs its own class", floor=5)
     rep.rule("C09.population-update", "cell_divider::run: success appends two cells + records one removal under critical, ids from the shared post-incremented counter, removal + renumbering after the loop, no unsynchronised access to the list being resized", floor=5)
 
@@ -34,6 +35,7 @@ def run(rep, prog, tier):
     if not rep.rules:
         declare(rep)
     stale_threshold(rep, prog)
+    rotation_shortcut(rep, prog)
     X = e2.Exceptions(prog, with_optional_value=True)
     fn = prog.fn("cell_divider::divide_cell")
     # (1)
@@ -266,3 +268,71 @@ def stale_threshold(rep, prog):
             if id(v) not in bad:
                 n += 1
                 rep.ok("C09.stale-threshold", prog, fn, v, "%s = %s is not used after any call that may compact the list" % (v["name"], short(v["init"], 50)))
+
+
+def _num(e):
+    e = strip(e)
+    if e.get("k") in ("FloatingLiteral", "IntegerLiteral"):
+        try:
+            return float(e.get("v"))
+        except (TypeError, ValueError):
+            return None
+    if e.get("k") == "UnaryOperator" and e.get("op") == "-":
+        v = _num(e["c"][0])
+        return -v if v is not None else None
+    return None
+
+
+def _exact_alignment(cond, positive):
+    """does `cond` (taken as it stands when positive, negated otherwise) imply that the tested quantity equals 1 up to rounding?"""
+    c = strip(cond)
+    if c.get("k") == "UnaryOperator" and c.get("op") == "!":
+        return _exact_alignment(c["c"][0], not positive)
+    if c.get("k") == "BinaryOperator" and c.get("op") in ("==", "!=", ">=", ">", "<", "<="):
+        op = c["op"]
+        l, r = c["c"][0], c["c"][1]
+        lit, side = (_num(r), "r") if _num(r) is not None else ((_num(l), "l") if _num(l) is not None else (None, None))
+        if lit is None:
+            return False
+        if not positive:
+            op = {"==": "!=", "!=": "==", ">=": "<", ">": "<=", "<": ">=", "<=": ">"}[op]
+        if side == "l":
+            op = {"==": "==", "!=": "!=", ">=": "<=", ">": "<", "<": ">", "<=": ">="}[op]
+        # now: quantity op lit
+        other = strip(l if side == "r" else r)
+        if any(x.get("k") == "CallExpr" and x.get("callee") in ("std::abs", "std::fabs", "abs", "fabs") for x in walk(other)) and lit < 1.0:
+            return False
+        return (op == "==" and lit == 1.0) or (op in (">=", ">") and lit >= 1.0 - 1e-12)
+    if c.get("k") == "CallExpr" and c.get("callee") == "almost_equal" and positive:
+        a = call_args(c)
+        return len(a) >= 2 and (_num(a[0]) == 1.0 or _num(a[1]) == 1.0)
+    return False
+
+
+def rotation_shortcut(rep, prog):
+    rule = "C09.rotation-shortcut"
+    fn = prog.fn("cell_divider::map_points_to_xy_plane")
+    fi = prog.index(fn)
+    n_id = 0
+    for n in walk(fn["body"]):
+        if n.get("k") in ("CXXOperatorCallExpr", "BinaryOperator") and n.get("op") == "=" and any(x.get("k") == "CallExpr" and x.get("callee") == "mat33::identity" for x in walk(n)):
+            n_id += 1
+            guard = None
+            for p, slot, ch in fi.ancestors(n):
+                if p.get("k") == "IfStmt" and slot in ("then", "else"):
+                    guard = (p, slot)
+                    break
+            if guard is None:
+                rep.violation(rule, prog, fn, n, "identity rotation not guarded", "%s assigns the identity as the rotation to the xy plane unconditionally" % short(n, 60))
+                continue
+            ifs, slot = guard
+            if _exact_alignment(ifs["cond"], slot == "then"):
+                rep.ok(rule, prog, fn, n, "identity used only under '%s%s' (exact alignment with the z axis)" % ("" if slot == "then" else "not ", short(ifs["cond"], 70)))
+            else:
+                rep.violation(rule, prog, fn, n, "identity rotation used for normals that are not the z axis",
+                              "%s is selected by '%s%s', which also holds for division normals that are merely close to (or opposite to) the z axis: the interface points are then not rotated, "
+                              "their z coordinate is overwritten with 0 and map_points_to_division_plane maps them back with the identity - the contour shared by the two daughters is flattened onto a "
+                              "horizontal plane instead of the division plane (nodes on the wrong side of the plane through the mother's centroid by up to r*tan(tilt))" % (short(n, 50), "" if slot == "then" else "not ", short(ifs["cond"], 80)))
+    if n_id == 0:
+        # no shortcut at all: the quaternion branch is taken for every normal - nothing to decide
+        rep.ok(rule, prog, fn, None, "no identity shortcut: the rotation is always built from the division normal")
